@@ -64,15 +64,34 @@ func main() {
 			blocks := ok.Blocks(slots, tier)
 			return kit.FuncSpace{N: ok.Total(blocks), F: func(i int64) kit.Result {
 				var r kit.Result
-				sch, choice := ok.Locate(blocks, i)
+				blk, choice := ok.Locate(blocks, i)
+				sch := blk.Scheme
 				in := ok.Expand(slots, choice, sch)
+				var pbf []byte
+				if blk.ViaPBF {
+					// the rules are applied to what the file says (the writer quantises coordinates)
+					var err error
+					if pbf, err = ok.PBF(in); err == nil {
+						in, err = ok.ReadBack(pbf)
+					}
+					if err != nil {
+						r.Violate("harness:pbf", "%v", err)
+						return r
+					}
+				}
 				r.Nontrivial = len(in.Ways)+len(in.Relations) > 0
 				r.Key = in.String()
 				if i%1009 == 0 {
 					r.Sample = map[string]string{"ids": sch.Name, "input": in.String()}
 				}
 				e := ok.Expect(in)
-				w, err := ok.Basic(in, 1)
+				var w b6.World
+				var err error
+				if blk.ViaPBF {
+					w, err = ok.BasicFromPBF(pbf, 1)
+				} else {
+					w, err = ok.Basic(in, 1)
+				}
 				if err != nil {
 					r.Violate("build-error", "ids %s %s\ninput: %s\n%v", sch.Name, ok.ChoiceNames(slots, choice), in, err)
 					r.Outcome = "build-error"
